@@ -24,6 +24,7 @@ type c03Case struct {
 	Strict bool          `json:"strict,omitempty"`
 	Drop   []int         `json:"drop,omitempty"`
 	Extra  []string      `json:"extra,omitempty"`
+	PreOps []string      `json:"preOps,omitempty"` // earlier operations on the same node tree (From-Root side only; Markdown has no state)
 }
 
 var c03Ops = []string{"text", "json", "yaml", "toml", "walk", "walkiter", "mkdir", "verify"}
@@ -41,6 +42,7 @@ func c03Cases(c c03Case) (root, md ops.Case) {
 	}
 	root.Root = &c.Root
 	root.Prog = c.Prog
+	root.PreOps = c.PreOps
 	md = ops.NewCase("output", "md")
 	md.Doc = []byte(model.Spell(model.Forest{tree}, model.Plain2))
 	for _, cs := range []*ops.Case{&root, &md} {
@@ -170,7 +172,10 @@ func c03Record(col *collector, c c03Case) {
 	if c.Alias {
 		cl = append(cl, "deprecated-alias")
 	}
-	col.eval(n >= 4 && (repeats > 0 || nonPre), hash64(c.Root, fmt.Sprint(c.Prog, c.Op, c.Alias, c.Branch, c.Exts, c.Strict, c.Drop, c.Extra)), cl...)
+	if len(c.PreOps) > 0 {
+		cl = append(cl, "after-earlier-calls-on-the-same-tree")
+	}
+	col.eval(n >= 4 && (repeats > 0 || nonPre), hash64(c.Root, fmt.Sprint(c.Prog, c.Op, c.Alias, c.Branch, c.Exts, c.Strict, c.Drop, c.Extra, c.PreOps)), cl...)
 	col.sample(func() any { return map[string]any{"root": c.Root, "prog": c.Prog, "op": c.Op, "tree": tree.String()} })
 }
 
@@ -243,12 +248,15 @@ func c03Gen() *rapid.Generator[c03Case] {
 		if fsOp || op == "walk" || op == "walkiter" {
 			names = sampled(validElemPool())
 		} else {
-			names = genNameMix(poolTiny, poolSyntax, poolUnicode, poolEncoding, nil)
+			names = genNameMix(poolTiny, poolSyntax, poolUnicode, poolEncoding, poolHostilePathItems(), nil)
 		}
 		f := genForest(forestParams{maxNodes: 14, maxDepth: 8, names: names, oneRoot: true}).Draw(t, "forest")
 		tree := model.Merge(f)[0]
 		c := c03Case{Root: tree.Name, Op: op, Alias: rapid.IntRange(0, 3).Draw(t, "alias") == 0}
 		c.Prog = genProgram(t, tree, rapid.Bool().Draw(t, "shuffle"), rapid.Bool().Draw(t, "repeats"))
+		if rapid.IntRange(0, 2).Draw(t, "withPreOps") == 0 {
+			c.PreOps = rapid.SliceOfN(rapid.SampledFrom(preOpPool), 1, 3).Draw(t, "preOps")
+		}
 		switch op {
 		case "text", "walk", "walkiter":
 			c.Branch = genBranch().Draw(t, "branch")
